@@ -265,6 +265,7 @@ func c12Long(c *Ctx, idx int) {
 		}
 	}
 }
+
 // c12Prose: strings that look like prose - runs of 20..70 single-byte characters with an occasional
 // multi-byte one - sliced with every step from 1 to 80 and several starts: skipping by blocks
 // of bytes goes wrong exactly where a block ends inside one of the sparse multi-byte characters.
